@@ -140,7 +140,28 @@ def _taus(rng, k, f_lo, f_hi, margin=0.8, sep=1.0, top_margin=None):
 
 
 def gen_true(rng, family, wide=False):
-    """Generating circuit of an identifiable family + frequency window.  Returns (spec, f_lo, f_hi, ppd)."""
+    """Generating circuit of an identifiable family + frequency window.  Returns (spec, f_lo, f_hi, ppd).
+    Every generating value lies at least a factor 10 inside the class-default limits (so that a start perturbed by x3
+    and the class-default limit box are consistent)."""
+    from pyimpspec import get_elements
+
+    classes = get_elements(private=True)
+    while True:
+        spec, f_lo, f_hi, ppd = _gen_true(rng, family, wide)
+        ok = True
+        for leaf in leaves(spec):
+            cls = classes[leaf[1]]
+            for name, p in leaf[2].items():
+                if name in ("n", "a", "b"):
+                    continue
+                lo, hi = cls.get_default_lower_limit(name), cls.get_default_upper_limit(name)
+                if not (lo * 10 <= p[0] <= hi / 10):
+                    ok = False
+        if ok:
+            return spec, f_lo, f_hi, ppd
+
+
+def _gen_true(rng, family, wide=False):
     span = float(rng.uniform(6.0, 8.0))
     lo = float(rng.uniform(-3.0, 0.0)) if not wide else float(rng.uniform(-4.0, 1.0))
     f_lo, f_hi = 10.0**lo, 10.0 ** (lo + span)
